@@ -22,6 +22,7 @@ From LZ4V Require Import Proofs.DecFootprint.
 From LZ4V Require Import Model.DecInplace Proofs.DecInplaceStep Proofs.DecInplaceRun Proofs.DecInplaceTop.
 From LZ4V Require Import Proofs.DecSession.
 From LZ4V Require Import Model.DecRingWrap Proofs.DecRingMin.
+From LZ4V Require Import Proofs.DecSessionFast.
 Import ListNotations.
 Local Open Scope Z_scope.
 
@@ -361,3 +362,29 @@ Theorem C05_ring_min_refuted :
   /\ rm_run true = (81, true, [173; 174; 175; 160; 161; 162; 163; 164]).
 Proof. exact ring_min_refuted. Qed.
 Print Assumptions C05_ring_min_refuted.
+
+(* The same for the deprecated LZ4_decompress_fast_continue (Model.DecFast; valid blocks only - the C code is
+   undefended): same invariant and per-call contract (capacity = originalSize = |D_k|), bookkeeping
+   [fast_next]; every call returns the number of source bytes |B_k| with all accesses in bounds and leaves
+   D_k at its destination, empty blocks included (fix F19). *)
+Theorem C05_fast_continue_session :
+  forall (calls : list scall) (am : mem) (st : sdstate) (H : list Z) (pok : bool),
+    sess_inv am st H pok -> fsession_geom st pok (Z.of_nat (length H)) calls -> session_valid H calls ->
+    fsession_run am st calls = fexpected calls.
+Proof. exact fast_continue_session. Qed.
+Print Assumptions C05_fast_continue_session.
+
+Theorem C05_fast_continue_session_contiguous :
+  forall (calls : list scall) (am : mem) (dest : Z),
+    contig_calls dest calls -> session_valid [] calls ->
+    fsession_run am (setStreamDecode 0 0) calls = fexpected calls.
+Proof. exact fast_continue_session_contiguous. Qed.
+Print Assumptions C05_fast_continue_session_contiguous.
+
+Theorem C05_fast_continue_session_ring :
+  forall (rb R M : Z), 0 <= M -> 65536 + 2 * M <= R ->
+  forall (calls : list scall) (am : mem),
+    ring_calls rb R M 0 calls -> session_valid [] calls ->
+    fsession_run am (setStreamDecode 0 0) calls = fexpected calls.
+Proof. exact fast_continue_session_ring. Qed.
+Print Assumptions C05_fast_continue_session_ring.
